@@ -84,6 +84,19 @@ Definition sig_valid (sg : sigstate) : bool := match sg with SigValid => true | 
 Definition cfg_cert (ns : bool) (sp : srcspec) : bool :=
   match sp_kind sp with KInline | KFile => ns && sp_cert sp | _ => sp_cert sp end.
 
+(* is validity checking on for the source?  It is, unless it was switched off for it, and the only sources for
+   which the API offers a switch are remote ones described by a dictionary (old-style specification):
+   the item's own check_validity = False, or the store-wide check_validity = False, which imp() applies to the
+   dictionary items it is handed.  A check_validity key that is NOT given leaves checking on; a list-style
+   item, an inline text and a local file have no switch. *)
+Definition cv_switched_off (ns : bool) (sp : srcspec) : bool :=
+  match sp_kind sp with
+  | KRemote => negb ns && ((sp_imp sp && negb (sp_scv sp))
+                           || match sp_cv sp with Some false => true | _ => false end)
+  | _ => false
+  end.
+Definition cfg_cv (ns : bool) (sp : srcspec) : bool := negb (cv_switched_off ns sp).
+
 Definition nonempty {A} (l : list A) : bool := match l with [] => false | _ => true end.
 
 (* what an accepted load contributes; None: it must not have been accepted (a certificate is configured,
@@ -92,10 +105,10 @@ Definition accept (ns : bool) (now : Z) (sp : srcspec) (f : fetched) : option em
   match f with
   | FMissing => None
   | FBody p sg =>
-      match doc_says (eff_cv ns sp) now p with
+      match doc_says (cfg_cv ns sp) now p with
       | None => None
       | Some es =>
-          let v := view (eff_cv ns sp) now es in
+          let v := view (cfg_cv ns sp) now es in
           if cfg_cert ns sp && negb (sig_valid sg) && nonempty v then None else Some v
       end
   end.
@@ -268,7 +281,7 @@ Definition load_class (ns : bool) (now : Z) (sp : srcspec) (f : fetched) : nat :
   match f with
   | FBody (D d) sg =>
       if cfg_cert ns sp && negb (sig_valid sg)
-         && match doc_says (eff_cv ns sp) now (D d) with Some es => nonempty (view (eff_cv ns sp) now es) | None => false end
+         && match doc_says (cfg_cv ns sp) now (D d) with Some es => nonempty (view (cfg_cv ns sp) now es) | None => false end
       then match sp_kind sp, sg with
            | KInline, _ => 6
            | _, Unsigned => 3
